@@ -144,6 +144,8 @@ impl Server {
         )?;
         grammar_config.update_cfg(cfg);
         let grammar_config = grammar_config.clone();
+        #[cfg(parol_verif)]
+        let grammar_config = crate::verif_driver::Gated::new(grammar_config, version);
         thread::spawn(move || match grammar_config.grammar_type {
             GrammarType::LLK => {
                 if let Err(err) = calculate_lookahead_dfas(&grammar_config, max_k) {
